@@ -15,7 +15,9 @@ IMPORTS = ("From JV Require Import Lib.Base Lib.C20Text Lib.C20Regex Model.C20Ba
 RULE = ("restricted numbers: every restriction list of 1 or 2 comparisons over {>,>=,<,<=,==,!=} x 2 reference values x "
         "{int,float} x {and,or} (thorough: plus seeded 3-comparison lists), each with candidates around the bounds, "
         "integral/non-integral floats, bools, numeric strings (signs, blanks, underscores, exponents, inf/nan), junk, "
-        "None and lists, called directly as T(v) and through parse_args / parse_object; the six predefined types by name; "
+        "None and lists, called directly as T(v) and through parse_args / parse_object; every generated type is created from a "
+        "caller-owned list object that is changed after the creation (append / clear / replace / drop+insert, optionally "
+        "followed by the creation of the next type from the same list) or from a bare pair; the six predefined types by name; "
         "restricted strings: the predefined and generated regexes x strings incl. prefixes and trailing newlines; "
         "registered types: ranges/timedeltas/Decimals/secrets/complex/UUID/bytes/bytearray/pathlib values incl. extremes, "
         "serialised and read back through dump->parse_string, argv, a config file and a JSON dump, and handed to "
@@ -39,6 +41,8 @@ ASSUMPTIONS = [
     "(plus, for the pre-fix guard only, exactness on binary doubles of at most 15 digits); decimals are finite",
 ]
 EXHAUSTIVE = {"quick": False, "thorough": False}
+# class 1 is only computed when the source registers Decimal with `float` again (the defect repaired by /repo 5683186,
+# listed `fixed:`): a revert is therefore reported as VIOLATION
 FINDING_CLASSES = {1: "decimal-via-float"}
 
 OPS = [">", ">=", "<", "<=", "==", "!="]
@@ -401,6 +405,26 @@ def num_types(rng, tier):
     return types
 
 
+AFTER_KINDS = ["none", "append", "clear", "set0", "pop_append", "tuple"]
+
+
+def after_for(base, join, restr):
+    """What the caller does with the restriction list object AFTER the type was created from it (a function of
+    the type, so that a type has one history wherever it occurs): nothing / append a comparison / clear / replace
+    the first / drop the last and put one in front; "tuple": the single comparison is passed as a bare pair.
+    The comparison brought in flips the outcome of the join for every finite value, so a type that kept the
+    caller's list instead of its own copy answers differently. "rebuild": the next type is created from the list."""
+    h = len(restr) * 7 + sum(ord(c) for s_, _ in restr for c in s_) + sum(len(ref_text(r)) for _, r in restr)
+    h += (3 if join == "or" else 0) + (1 if base == "float" else 0)
+    kind = AFTER_KINDS[h % len(AFTER_KINDS)]
+    if kind == "tuple" and len(restr) != 1:
+        kind = "append"
+    if kind == "clear" and not restr:
+        kind = "append"
+    cmp = [">", pvi(-1000000)] if join == "or" else ["<", pvi(-1000000)]
+    return {"kind": kind, "cmp": cmp, "rebuild": (h // len(AFTER_KINDS)) % 2 == 0}
+
+
 def ref_text(r):
     return r["i"] if "i" in r else r["f"]
 
@@ -415,7 +439,8 @@ def gen_num(rng, tier):
         k = 9 if tier == "quick" else 30
         pick = must + rng.sample(rest, min(k, len(rest)))
         for v in pick:
-            cases.append({"kind": "num", "base": base, "join": join, "restr": [[s, r] for s, r in restr], "value": v})
+            cases.append({"kind": "num", "base": base, "join": join, "restr": [[s, r] for s, r in restr], "value": v,
+                          "after": after_for(base, join, restr)})
     for name, (base, join, restr) in PREDEFINED.items():
         for v in num_candidates(base, ["0", "1"]):
             cases.append({"kind": "num", "predefined": name, "base": base, "join": join,
@@ -438,10 +463,10 @@ def gen_numparse(rng, tier):
         texts = rng.sample(ARGV_TEXTS, 10 if tier == "quick" else len(ARGV_TEXTS))
         for t in texts:
             cases.append({"kind": "numparse", "channel": "argv", "base": base, "join": join,
-                          "restr": [[s, r] for s, r in restr], "value": pvs(t)})
+                          "restr": [[s, r] for s, r in restr], "value": pvs(t), "after": after_for(base, join, restr)})
         for v in rng.sample(OBJ_VALUES, 6 if tier == "quick" else len(OBJ_VALUES)):
             cases.append({"kind": "numparse", "channel": "object", "base": base, "join": join,
-                          "restr": [[s, r] for s, r in restr], "value": v})
+                          "restr": [[s, r] for s, r in restr], "value": v, "after": after_for(base, join, restr)})
     return cases
 
 
@@ -777,7 +802,8 @@ def shrink(case):
     k = case["kind"]
     if k in ("num", "numparse") and len(case.get("restr", [])) > 1 and "predefined" not in case:
         for i in range(len(case["restr"])):
-            yield dict(case, restr=case["restr"][:i] + case["restr"][i + 1:])
+            r2 = case["restr"][:i] + case["restr"][i + 1:]
+            yield dict(case, restr=r2, after=after_for(case["base"], case["join"], [(s_, r) for s_, r in r2]))
     if k in ("num", "numparse", "rstr", "rangedes", "tddes") and "s" in case["value"]:
         s = case["value"]["s"]
         for i in range(len(s)):
@@ -809,12 +835,14 @@ META = {
                   "representable timedeltas (negative, sub-second) and C20_timedelta_regexes (likewise for the two patterns of "
                   "timedelta_deserializer under re.match); C20_secret_never_dumped; Decimal: "
                   "C20_decimal_via_float_refuted (registered with serializer float the file round trip of Decimal('0.1') fails "
-                  "whatever float() returns: the open finding), C20_decimal_hybrid_roundtrip (with "
-                  "fixes/C20-decimal-via-float.patch EVERY finite decimal round-trips on every channel) and "
+                  "whatever float() returns: the defect repaired by /repo 5683186, kept as regression witness), "
+                  "C20_decimal_hybrid_roundtrip (the registration of the repaired tree, which C20_registry finds in the source: "
+                  "EVERY finite decimal round-trips on every channel) and "
                   "C20_decimal_guarded_roundtrip (either registration inside the judge's guard). Only exercised by the "
                   "correspondence: complex, UUID, bytes, bytearray and pathlib round trips (Python builtins), the yaml/json "
                   "quoting of the serialised texts on the four channels (dump->parse_string, argv, config file, json) plus the "
-                  "pass-through of an already typed value, that no dump/save/str/repr shows a secret.",
+                  "pass-through of an already typed value, that no dump/save/str/repr shows a secret, that a type keeps the "
+                  "comparisons stated at its creation when the caller later changes the list object it passed.",
     "level_note": "Trusted: Coq kernel/VM; faithfulness of the hand-written models outside the generated cases; the AST translators "
                   "(operator table, regexes, registry; fail closed); Python's int()/float() text grammars (modelled, tied per "
                   "case) and double arithmetic (floats are fixed-point multiples of 10^-6 in the model); float()/repr() of a "
